@@ -8,6 +8,18 @@ VERIF = os.path.dirname(os.path.dirname(os.path.abspath(__file__)))
 
 CHECKS = {
     # id: (category, technique, level text, level note, design ref)
+    "C01": ("exploration", "runtime reference-model monitor: real EQL evaluation vs brute-force first-order oracle over the domain product (row sets), counterfactual classification of listed findings",
+            "random and (thorough) exhaustively enumerated query specs are built through the public API and evaluated on the real engine; the returned row set must equal the set computed by an independent evaluator over the Cartesian product of the type-filtered domains",
+            "readings of exists/for_all fixed in DESIGN.md section 3; only executions produced are decided; listed findings are recognised by mechanism (features + counterfactual oracle), anything else is a violation", "4/C01"),
+    "C02": ("exploration", "runtime reference-model monitor: multiset comparison with the brute-force oracle in the conjunctive/else-if fragment + the()/count-constraint outcomes on fresh builds",
+            "queries of the negation-normal conjunctive / else-if fragment are evaluated on the real engine and the multiset of rows must equal one row per satisfying assignment; the() and Exactly/AtMost/AtLeast constraints must see the true count",
+            "fragment membership is decided on the spec; empty domains give no rows under the total-assignment reading", "4/C02"),
+    "C18": ("exploration", "runtime monitor: generated values pushed through to_json -> json.dumps -> json.loads -> from_json, structural equality + exact-type + tag oracle",
+            "random recursive values over the whole vocabulary of the statement are round-tripped through real JSON text; equality is NaN-aware and type-exact at every position, and every object dict must carry its fully qualified tag",
+            "harness-owned serialisable classes (4-level hierarchy) and a registered third-party type; tuples/sets/dicts not generated", "4/C18"),
+    "C19": ("fault_enumeration", "runtime fault enumeration: every malformed / unresolvable tag value of an explicit list plus random dotted names is fed to the real from_json; oracle = exception class",
+            "the enumerated tag faults (every JSON type, dots, modules, functions, type variables, constants, failing imports) are all executed and must raise a JSONSerializationError subclass; random dotted names extend the list",
+            "tags that an independent resolver finds valid are skipped; import failures other than ImportError are outside the enumeration", "4/C19"),
     "C09": ("exploration", "runtime monitor: sequential-spec oracle over an exhaustively enumerated (n, constraint) space + icontract post-conditions on the constraint classes",
             "every (solution count n<=N, constraint, bounds around n, selector, domain kind) combination is executed on the real engine and the observed (yielded prefix, exception class) is compared with the sequential specification; contracts watch assert_satisfaction on every call",
             "the harness controls n by construction; exploration is bounded by N (6 quick / 10 thorough + random n<=60)", "4/C09"),
